@@ -7,6 +7,7 @@
 -/
 import PM.Json
 import Proofs.Json
+import Proofs.JsonShape
 namespace PM.C05
 open PM
 
@@ -179,5 +180,124 @@ theorem stepOfJ_unknown (S : Schema) (fuel : Nat) (kv : List (String × J)) (nam
     (h : (J.obj kv).get "stepType" = some (.str name)) (hn : name ∉ stepIds) :
     S.stepOfJ fuel (J.obj kv) = .error .valueError := by
   exact stepOfJ_unknown_aux S fuel kv name h hn
+
+/-! ### arbitrary JSON data (not produced by `to_json`): when the decoders die
+
+  For data sent by a peer the decoders of the code do have internal outcomes: `json_data[k]` on a
+  missing key is a `KeyError`, `.get` on a list / number / string an `AttributeError`, a list or dict
+  used as a name a `TypeError`.  `PM/Json.lean` models these branch by branch (tied, class by class,
+  by the malformed-input stream of `harness/props/c05.py`).  The theorems: (1) under a decidable
+  *skeleton* condition on the data — objects where objects are read, the keys read with
+  `json_data[k]` present, names not lists / dicts, `attrs` a dict or falsy; names, numbers and
+  attribute values arbitrary — no decoder returns `internal`; (2) for marks the exact condition;
+  (3) each way of leaving the skeleton does end in `internal` (examples). -/
+
+/-- **no internal error on skeleton-shaped data**, whatever the names, numbers, attribute values,
+    nesting (up to `fuel`) and schema -/
+theorem ofJ_no_internal (S : Schema) (fuel : Nat) :
+    (∀ j, markShaped j = true → S.markOfJ j ≠ .error .internal) ∧
+    (∀ j, nodeShaped fuel j = true → S.nodeOfJ fuel j ≠ .error .internal) ∧
+    (∀ v, fragShaped fuel v = true → S.fragOfJ fuel v ≠ .error .internal) ∧
+    (∀ v, sliceShaped fuel v = true → S.sliceOfJ fuel v ≠ .error .internal) ∧
+    (∀ j, stepShaped fuel j = true → S.stepOfJ fuel j ≠ .error .internal) :=
+  ⟨markOfJ_no_internal S, (nodeOfJ_kidsOfJ_no_internal S fuel).1, fragOfJ_no_internal S fuel,
+    sliceOfJ_no_internal S fuel, stepOfJ_no_internal S fuel⟩
+
+/-- **`Mark.from_json` dies exactly on**: truthy data that is not a dict; a dict without `type`; a
+    list or dict as `type`; a known mark type with declared attributes and a truthy non-dict `attrs` -/
+theorem markOfJ_internal_iff (S : Schema) (j : J) :
+    S.markOfJ j = .error .internal ↔
+      j.truthy = true ∧
+      ((∀ kv, j ≠ .obj kv) ∨
+       ∃ kv, j = .obj kv ∧
+        ((J.obj kv).get "type" = none ∨ (∃ l, (J.obj kv).get "type" = some (.arr l)) ∨
+         (∃ o, (J.obj kv).get "type" = some (.obj o)) ∨
+         ∃ name t, (J.obj kv).get "type" = some (.str name) ∧ S.findMark name = some t ∧
+           attrsShaped ((J.obj kv).get "attrs") = false ∧ (S.markType t).attrs ≠ [])) :=
+  markOfJ_internal_iff' S j
+
+/-- `compute_attrs` on JSON `attrs` dies exactly on a truthy non-dict when an attribute is declared -/
+theorem computeAttrs_internal_iff (decls : List AttrDecl) (v : Option J) :
+    computeAttrsJ decls v = .error .internal ↔ attrsShaped v = false ∧ decls ≠ [] :=
+  computeAttrsJ_internal_iff decls v
+
+/-- doc(para*), para(text*) with an attribute `id` (default null), text; one mark `em` with attribute `k` -/
+private def jS : Schema :=
+  { nodes := #[
+      { name := "doc", isText := false, isInline := false, isLeaf := false, isAtom := false,
+        inlineContent := false, isolating := false, defining := false, code := false,
+        dfa := #[⟨true, [(1, 0)]⟩], markSet := some [], attrs := [] },
+      { name := "para", isText := false, isInline := false, isLeaf := false, isAtom := false,
+        inlineContent := true, isolating := false, defining := false, code := false,
+        dfa := #[⟨true, [(2, 0)]⟩], markSet := none, attrs := [⟨"id", true, "null"⟩] },
+      { name := "text", isText := true, isInline := true, isLeaf := true, isAtom := true,
+        inlineContent := false, isolating := false, defining := false, code := false,
+        dfa := #[⟨true, []⟩], markSet := some [], attrs := [] }],
+    marks := #[{ name := "em", excluded := [0], inclusive := true, attrs := [⟨"k", true, "null"⟩] }],
+    top := 0, textTy := 2 }
+
+private theorem jS_para : jS.findNode "para" = some 1 := by decide
+private theorem jS_nosuch : jS.findNode "nosuch" = none := by decide
+private theorem jS_em : jS.findMark "em" = some 0 := by decide
+private theorem jS_alsono : jS.findMark "alsono" = none := by decide
+private theorem jS_para_attrs : (jS.nodeType 1).attrs = [⟨"id", true, "null"⟩] := rfl
+private theorem jS_em_attrs : (jS.markType 0).attrs = [⟨"k", true, "null"⟩] := rfl
+
+/-- **the shapes on which the decoders die** (each checked against the code by the malformed-input
+    stream): outside the skeleton every decoder has an `internal` outcome -/
+theorem ofJ_internal_shapes :
+    -- nodes: truthy non-dict; no `type`; text node without `text`; truthy non-dict `attrs`; a bad mark
+    errClass (jS.nodeOfJ 5 (.arr [.num 1])) = some .internal ∧
+    errClass (jS.nodeOfJ 5 (.num 7)) = some .internal ∧
+    errClass (jS.nodeOfJ 5 (.obj [("content", .arr [])])) = some .internal ∧
+    errClass (jS.nodeOfJ 5 (.obj [("type", .str "text")])) = some .internal ∧
+    errClass (jS.nodeOfJ 5 (.obj [("type", .str "para"), ("attrs", .arr [.num 1])])) = some .internal ∧
+    errClass (jS.nodeOfJ 5 (.obj [("type", .str "para"), ("marks", .arr [.num 1])])) = some .internal ∧
+    errClass (jS.nodeOfJ 5 (.obj [("type", .str "doc"), ("content", .arr [.num 1])])) = some .internal ∧
+    -- marks: truthy non-dict; no `type`; list as `type`; truthy non-dict `attrs`
+    errClass (jS.markOfJ (.str "em")) = some .internal ∧
+    errClass (jS.markOfJ (.obj [("attrs", .obj [])])) = some .internal ∧
+    errClass (jS.markOfJ (.obj [("type", .arr [])])) = some .internal ∧
+    errClass (jS.markOfJ (.obj [("type", .str "em"), ("attrs", .num 1)])) = some .internal ∧
+    -- slices: truthy non-dict (a string is not parsed here)
+    errClass (jS.sliceOfJ 5 (some (.str "x"))) = some .internal ∧
+    errClass (jS.sliceOfJ 5 (some (.arr [.num 1]))) = some .internal ∧
+    -- steps: truthy non-dict; list as `stepType`; a key read with `json_data[k]` missing
+    errClass (jS.stepOfJ 5 (.arr [.num 1])) = some .internal ∧
+    errClass (jS.stepOfJ 5 (.obj [("stepType", .arr [.num 1])])) = some .internal ∧
+    errClass (jS.stepOfJ 5 (.obj [("stepType", .str "replace"), ("to", .num 1)])) = some .internal ∧
+    errClass (jS.stepOfJ 5 (.obj [("stepType", .str "replace"), ("from", .num 1)])) = some .internal ∧
+    errClass (jS.stepOfJ 5 (.obj [("stepType", .str "replaceAround"), ("from", .num 0), ("to", .num 2),
+      ("gapFrom", .num 1), ("gapTo", .num 1)])) = some .internal ∧
+    errClass (jS.stepOfJ 5 (.obj [("stepType", .str "addMark"), ("from", .num 0), ("to", .num 2)])) = some .internal ∧
+    errClass (jS.stepOfJ 5 (.obj [("stepType", .str "addNodeMark"), ("mark", .obj [("type", .str "em")])])) = some .internal ∧
+    errClass (jS.stepOfJ 5 (.obj [("stepType", .str "attr"), ("pos", .num 0), ("attr", .str "id")])) = some .internal ∧
+    errClass (jS.stepOfJ 5 (.obj [("stepType", .str "docAttr"), ("value", .raw "1")])) = some .internal ∧
+    errClass (jS.stepOfJ 5 (.obj [("stepType", .str "replace"), ("from", .num 0), ("to", .num 0),
+      ("slice", .num 1)])) = some .internal ∧
+    -- … while wrong *values* in the right skeleton are refused with a ValueError
+    errClass (jS.stepOfJ 5 (.obj [("stepType", .str "replace"), ("from", .str "0"), ("to", .num 0)])) = some .valueError ∧
+    errClass (jS.stepOfJ 5 (.obj [("stepType", .str "nosuch")])) = some .valueError ∧
+    errClass (jS.nodeOfJ 5 (.obj [("type", .str "nosuch")])) = some .valueError ∧
+    errClass (jS.nodeOfJ 5 (.obj [("type", .num 7)])) = some .valueError ∧
+    errClass (jS.markOfJ (.obj [("type", .num 7)])) = some .valueError := by
+  simp [errClass, Schema.nodeOfJ, Schema.kidsOfJ, Schema.marksOfJ, Schema.markOfJ, Schema.sliceOfJ,
+    Schema.stepOfJ, Schema.markField, intField, J.truthy, J.get, stepIds,
+    computeAttrsJ, computeAttrs, Except.map, Functor.map, bind, Except.bind, jS_para, jS_nosuch, jS_em, jS_para_attrs,
+    jS_em_attrs]
+
+/-- non-vacuity of the skeleton condition: a step from a peer with an unknown mark name and a node
+    of unknown type inside is shaped (and refused with a ValueError, not an internal error) -/
+example :
+    stepShaped 5 (.obj [("stepType", .str "replace"), ("from", .num 0), ("to", .num 9),
+      ("slice", .obj [("content", .arr [.obj [("type", .str "nosuch"),
+        ("marks", .arr [.obj [("type", .str "alsono")]])]])])]) = true ∧
+    errClass (jS.stepOfJ 5 (.obj [("stepType", .str "replace"), ("from", .num 0), ("to", .num 9),
+      ("slice", .obj [("content", .arr [.obj [("type", .str "nosuch"),
+        ("marks", .arr [.obj [("type", .str "alsono")]])]])])])) = some .valueError := by
+  simp [errClass, stepShaped, sliceShaped, fragShaped, nodeShaped, kidsShaped, marksShaped, markShaped,
+    attrsShaped, Schema.nodeOfJ, Schema.kidsOfJ, Schema.marksOfJ, Schema.markOfJ, Schema.sliceOfJ,
+    Schema.fragOfJ, Schema.stepOfJ, intField, openOfJ, J.truthy, J.get, stepIds, Except.map, Functor.map, bind, Except.bind,
+    jS_alsono]
 
 end PM.C05
